@@ -169,7 +169,8 @@ Qed.
 Lemma close_stream_ring s x :
   cap (close_stream x s) = cap s /\ slots (close_stream x s) = slots s /\ head (close_stream x s) = head s /\
   tail (close_stream x s) = tail s /\ held (close_stream x s) = held s /\ nstreams (close_stream x s) = nstreams s /\
-  fx (close_stream x s) = fx s /\ cur (close_stream x s) = cur s /\ nsess (close_stream x s) = nsess s.
+  fx (close_stream x s) = fx s /\ cur (close_stream x s) = cur s /\ nsess (close_stream x s) = nsess s /\
+  fy (close_stream x s) = fy s.
 Proof. unfold close_stream. destruct (sst (streams s x)); repeat split; reflexivity. Qed.
 
 Lemma base_close_stream s x : Base s -> Base (close_stream x s).
@@ -245,7 +246,7 @@ Qed.
 Lemma push_spec x s s2 :
   ring_push x s = Some s2 ->
   tail s - head s < cap s /\
-  s2 = {| fx := fx s; cap := cap s; slots := updz (slots s) (tail s mod cap s) x; head := head s; tail := tail s + 1;
+  s2 = {| fx := fx s; fy := fy s; cap := cap s; slots := updz (slots s) (tail s mod cap s) x; head := head s; tail := tail s + 1;
           streams := streams s; nstreams := nstreams s;
           sessions := sessions s; cur := cur s; nsess := nsess s; held := held s |}.
 Proof.
@@ -369,7 +370,7 @@ Proof.
   destruct (unhealthy (sessions s (cur s))) eqn:Hu; [inversion H |].
   inversion H; subst; clear H. split; [| split; reflexivity].
   set (x := nstreams s).
-  set (s1 := {| fx := fx s; cap := cap s; slots := slots s; head := head s; tail := tail s;
+  set (s1 := {| fx := fx s; fy := fy s; cap := cap s; slots := slots s; head := head s; tail := tail s;
                 streams := updn (streams s) x (new_stream (cur s)); nstreams := S x;
                 sessions := updn (sessions s) (cur s) (with_table (table (sessions s (cur s)) ++ [x]) (sessions s (cur s)));
                 cur := cur s; nsess := nsess s; held := held s |}).
@@ -431,7 +432,8 @@ Proof. intro B. unfold discard. destruct (fx s); [apply base_close_stream |]; ex
 Lemma discard_ring s x :
   cap (discard x s) = cap s /\ slots (discard x s) = slots s /\ head (discard x s) = head s /\
   tail (discard x s) = tail s /\ held (discard x s) = held s /\ nstreams (discard x s) = nstreams s /\
-  fx (discard x s) = fx s /\ cur (discard x s) = cur s /\ nsess (discard x s) = nsess s.
+  fx (discard x s) = fx s /\ cur (discard x s) = cur s /\ nsess (discard x s) = nsess s /\
+  fy (discard x s) = fy s.
 Proof. pose proof (close_stream_ring s x) as H. unfold discard. destruct (fx s) eqn:E; [exact H | repeat split; try reflexivity; exact E]. Qed.
 
 Definition got_ok (s : st) (x : nat) : Prop :=
@@ -484,7 +486,7 @@ Proof.
   assert (B0 : Base (rem_held c x s)) by (split; assumption).
   set (s0 := rem_held c x s) in *.
   destruct (infb (streams s0 x)); [apply base_close_stream; exact B0 |].
-  destruct (resettable (streams s0 x)) eqn:Hr; cbn [negb]; [| apply base_close_stream; exact B0].
+  destruct (resettable (fy s0) (streams s0 x)) eqn:Hr; cbn [negb]; [| apply base_close_stream; exact B0].
   set (v := recycled_for_reuse (streams s0 x)).
   assert (Hv : ssess v = ssess (streams s0 x) /\ sst v = sst (streams s0 x)).
   { unfold v, recycled_for_reuse. destruct (rbuf (streams s0 x)) as [|r [|r' l]]; try (split; reflexivity).
@@ -574,7 +576,7 @@ Proof.
   - cbn [fst]. apply do_rebuild_base; exact B.
 Qed.
 
-Lemma init_base f c : 0 <= c -> Base (init f c).
+Lemma init_base f g c : 0 <= c -> Base (init f g c).
 Proof.
   intro Hc. split.
   - constructor; unfold in_ring, slot_at, heldx; cbn [init head tail cap slots held nstreams map]; try lia;
@@ -613,7 +615,7 @@ Section PoolProp.
   (* what the environment / the callers must respect for P to stay true of the pooled streams *)
   Definition guardP (s : st) (l : label) : Prop :=
     match l with
-    | Put c x => holds c x s = true -> resettable (streams s x) = true -> infb (streams s x) = false ->
+    | Put c x => holds c x s = true -> resettable (fy s) (streams s x) = true -> infb (streams s x) = false ->
                  P (recycled_for_reuse (streams s x))
     | PeerData x n fb => pooled s x -> P (streams s x) -> P (with_pend n fb (streams s x))
     | PeerClose x => pooled s x -> P (streams s x) -> sst (streams s x) = Opened -> P (with_half (streams s x))
@@ -690,7 +692,7 @@ Section PoolProp.
       { rewrite (pooled_frame s (rem_held c x s)) by reflexivity. apply held_not_pooled; [exact R | eapply holds_heldx; exact Hh]. }
       set (s0 := rem_held c x s) in *.
       destruct (infb (streams s0 x)) eqn:Hf; [apply poolP_close_stream; exact H0 |].
-      destruct (resettable (streams s0 x)) eqn:Hr; cbn [negb]; [| apply poolP_close_stream; exact H0].
+      destruct (resettable (fy s0) (streams s0 x)) eqn:Hr; cbn [negb]; [| apply poolP_close_stream; exact H0].
       set (v := recycled_for_reuse (streams s0 x)).
       assert (Pv : P v) by (apply Hg; assumption).
       assert (H1 : PoolP (set_stream x v s0)) by (apply poolP_set_stream_p; assumption).
@@ -750,30 +752,42 @@ Proof.
   destruct Hg as [Hl Ht]. apply IH; [apply step_base; exact B | apply step_poolP; auto | exact Ht].
 Qed.
 
-Lemma init_poolP P f c : PoolP P (init f c).
+Lemma init_poolP P f g c : PoolP P (init f g c).
 Proof. intros x [i [Hi _]]. cbn [init head tail] in Hi. lia. Qed.
 
 (* ---------- cleanliness ---------- *)
+(* "carries no bytes of an earlier use", part 1: the buffers *)
+Definition clean_bytes (v : stream) : Prop := sumz (rbuf v) = 0 /\ sumz (sbuf v) = 0 /\ infb v = false.
+(* part 2: nothing waiting in pendingData *)
+Definition clean_pend (v : stream) : Prop := pend v = [].
 Definition clean_stream (v : stream) : Prop :=
   sumz (rbuf v) = 0 /\ pend v = [] /\ sumz (sbuf v) = 0 /\ infb v = false.
 
-(* the hypotheses under which "carries no bytes of an earlier use" holds of today's code:
-   (a) a caller gives a stream back only with an empty send buffer (everything flushed),
-   (b) the peer sends nothing to a stream while it is pooled *)
-Definition clean_guard (s : st) (l : label) : Prop :=
+(* what part 1 needs from the callers - nothing once reset() rejects unflushed bytes (fy = true):
+   a caller gives a stream back only with an empty send buffer *)
+Definition bytes_guard (s : st) (l : label) : Prop :=
   match l with
-  | Put c x => holds c x s = true -> sumz (sbuf (streams s x)) = 0
+  | Put c x => fy s = true \/ (holds c x s = true -> sumz (sbuf (streams s x)) = 0)
+  | _ => True
+  end.
+(* what part 2 needs from the peer: it sends nothing to a stream while it is pooled *)
+Definition pend_guard (s : st) (l : label) : Prop :=
+  match l with
   | PeerData x _ _ => ~ pooled s x
   | _ => True
   end.
 
-Lemma clean_closed v : clean_stream v -> clean_stream (closed_of v).
-Proof. intros (_ & _ & _ & D). unfold clean_stream. cbn [closed_of rbuf pend sbuf infb sumz fold_right]. auto. Qed.
+Lemma bytes_closed v : clean_bytes v -> clean_bytes (closed_of v).
+Proof. intros (_ & _ & D). unfold clean_bytes. cbn [closed_of rbuf sbuf infb sumz fold_right]. auto. Qed.
+Lemma pend_closed v : clean_pend v -> clean_pend (closed_of v).
+Proof. intros _. reflexivity. Qed.
 
-Lemma resettable_spec v : resettable v = true -> sst v = Opened /\ sumz (rbuf v) = 0 /\ pend v = [].
+Lemma resettable_spec g v : resettable g v = true ->
+  sst v = Opened /\ sumz (rbuf v) = 0 /\ pend v = [] /\ (g = true -> sumz (sbuf v) = 0).
 Proof.
-  unfold resettable. rewrite !andb_true_iff. intros [[A B] C].
-  apply is_open_true in A. apply Z.eqb_eq in B. destruct (pend v); [auto | discriminate].
+  unfold resettable. rewrite !andb_true_iff. intros [[[A B] C] D].
+  apply is_open_true in A. apply Z.eqb_eq in B. destruct (pend v); [| discriminate].
+  repeat split; auto. intro G. subst g. cbn [negb orb] in D. apply Z.eqb_eq in D. exact D.
 Qed.
 
 Lemma recycled_sst v : sst (recycled_for_reuse v) = sst v /\ ssess (recycled_for_reuse v) = ssess v /\ infb (recycled_for_reuse v) = false.
@@ -782,13 +796,21 @@ Proof.
   destruct (r =? 0); repeat split; reflexivity.
 Qed.
 
-Lemma clean_guardP s l : clean_guard s l -> guardP clean_stream s l.
+Lemma bytes_guardP s l : bytes_guard s l -> guardP clean_bytes s l.
 Proof.
-  destruct l; cbn [clean_guard guardP]; auto.
-  - intros Hg Hh Hr Hf. specialize (Hg Hh). apply resettable_spec in Hr. destruct Hr as (A & B & C).
-    unfold clean_stream, recycled_for_reuse. destruct (rbuf (streams s x)) as [|r [|r' t]] eqn:Er;
-      try (cbn [rbuf pend sbuf infb]; rewrite ?Er; auto).
-    destruct (r =? 0); cbn [rbuf pend sbuf infb sumz fold_right]; rewrite ?Er; auto.
+  destruct l; cbn [bytes_guard guardP]; auto.
+  intros Hg Hh Hr Hf. apply resettable_spec in Hr. destruct Hr as (A & B & C & D).
+  assert (Hs : sumz (sbuf (streams s x)) = 0) by (destruct Hg as [Hg|Hg]; [apply D, Hg | apply Hg, Hh]).
+  unfold clean_bytes, recycled_for_reuse. destruct (rbuf (streams s x)) as [|r [|r' t]] eqn:Er;
+    try (cbn [rbuf sbuf infb]; rewrite ?Er; auto).
+  destruct (r =? 0); cbn [rbuf sbuf infb sumz fold_right]; rewrite ?Er; auto.
+Qed.
+
+Lemma pend_guardP s l : pend_guard s l -> guardP clean_pend s l.
+Proof.
+  destruct l; cbn [pend_guard guardP]; auto.
+  - intros _ _ Hr _. apply resettable_spec in Hr. destruct Hr as (_ & _ & C & _).
+    unfold clean_pend, recycled_for_reuse. destruct (rbuf (streams s x)) as [|r [|r' t]]; try exact C. destruct (r =? 0); exact C.
   - intros Hg Hp. contradiction.
 Qed.
 
@@ -864,7 +886,7 @@ Proof.
     unfold open_stream. destruct (shut _); [exact E |]. destruct (unhealthy _); exact E.
   - unfold do_put. destruct (holds c x s); cbn [negb fst]; [| reflexivity].
     destruct (infb _); [cbn [fst]; rewrite close_stream_fx; reflexivity |].
-    destruct (resettable _); cbn [negb]; [| cbn [fst]; rewrite close_stream_fx; reflexivity].
+    destruct (resettable _ _); cbn [negb]; [| cbn [fst]; rewrite close_stream_fx; reflexivity].
     destruct (ring_push _ _) as [s2|] eqn:Ep; cbn [fst]; [apply push_spec in Ep; destruct Ep as (_ & ->); reflexivity | rewrite close_stream_fx; reflexivity].
   - destruct (_ && _); reflexivity.
   - destruct (holds c x s); cbn [fst]; [| reflexivity]. unfold do_flush.
@@ -886,6 +908,49 @@ Qed.
 
 Lemma run_fx s h : fx (run s h) = fx s.
 Proof. revert s. induction h as [|l t IH]; intros s; cbn [run]; [reflexivity | rewrite IH; apply step_fx]. Qed.
+
+Lemma get_loop_fy fuel : forall s s1 r, get_loop fuel s = (s1, r) -> fy s1 = fy s.
+Proof.
+  induction fuel as [|f IH]; intros s s1 r H; cbn [get_loop] in H; [inversion H; reflexivity |].
+  destruct (ring_pop s) as [[x s0]|] eqn:Ep; [| inversion H; reflexivity].
+  apply pop_spec in Ep. destruct Ep as (_ & _ & ->).
+  destruct (negb _ && _); [inversion H; reflexivity |].
+  apply IH in H. rewrite H. destruct (discard_ring (set_head (head s + 1) s) x) as (_ & _ & _ & _ & _ & _ & _ & _ & _ & E). exact E.
+Qed.
+
+Lemma close_stream_fy s x : fy (close_stream x s) = fy s.
+Proof. apply (close_stream_ring s x). Qed.
+
+Lemma step_fy s l : fy (fst (step s l)) = fy s.
+Proof.
+  destruct l; cbn [step].
+  - unfold do_get. destruct (unhealthy _); [reflexivity |].
+    destruct (get_loop _ s) as [s1 [x|]] eqn:E; apply get_loop_fy in E; cbn [fst]; [exact E |].
+    unfold open_stream. destruct (shut _); [exact E |]. destruct (unhealthy _); exact E.
+  - unfold do_put. destruct (holds c x s); cbn [negb fst]; [| reflexivity].
+    destruct (infb _); [cbn [fst]; rewrite close_stream_fy; reflexivity |].
+    destruct (resettable _ _); cbn [negb]; [| cbn [fst]; rewrite close_stream_fy; reflexivity].
+    destruct (ring_push _ _) as [s2|] eqn:Ep; cbn [fst]; [apply push_spec in Ep; destruct Ep as (_ & ->); reflexivity | rewrite close_stream_fy; reflexivity].
+  - destruct (_ && _); reflexivity.
+  - destruct (holds c x s); cbn [fst]; [| reflexivity]. unfold do_flush.
+    destruct (_ =? 0); [reflexivity |]. destruct (is_open _); cbn [negb]; [| reflexivity]. destruct (_ || _); reflexivity.
+  - destruct (holds c x s); reflexivity.
+  - destruct (holds c x s); cbn [fst]; [| reflexivity]. unfold do_release.
+    destruct (rbuf _) as [|r [|r' t]]; try reflexivity. destruct (r =? 0); reflexivity.
+  - destruct (holds c x s); cbn [fst]; [apply close_stream_fy | reflexivity].
+  - cbn [fst]. unfold do_peer_data. destruct (_ <? _)%nat; cbn [negb]; [| reflexivity]. destruct fb; destruct (in_table x s); reflexivity.
+  - cbn [fst]. unfold do_peer_close. destruct (_ && _); reflexivity.
+  - reflexivity.
+  - reflexivity.
+  - cbn [fst]. unfold do_cleanup. destruct (_ && _); reflexivity.
+  - cbn [fst]. unfold do_bg_pop. destruct (shut _); [| reflexivity].
+    destruct (ring_pop s) as [[x s1]|] eqn:Ep; [| reflexivity]. rewrite close_stream_fy.
+    apply pop_spec in Ep. destruct Ep as (_ & _ & ->). reflexivity.
+  - cbn [fst]. unfold do_rebuild. destruct (shut _); reflexivity.
+Qed.
+
+Lemma run_fy s h : fy (run s h) = fy s.
+Proof. revert s. induction h as [|l t IH]; intros s; cbn [run]; [reflexivity | rewrite IH; apply step_fy]. Qed.
 
 Lemma not_in_table_after_close s x k : TabInv s -> ~ In x (table (sessions (close_stream x s) k)).
 Proof.
@@ -996,7 +1061,7 @@ Proof.
     { intros k y Hs Hi. destruct (O k y Hs Hi) as [H|H]; [left; exact H |]. apply Hsub in H. destruct H as [->|H]; auto. }
     set (s0 := rem_held c x s) in *.
     destruct (infb (streams s0 x)); [apply ownedbut_close; assumption |].
-    destruct (resettable (streams s0 x)) eqn:Hr; cbn [negb]; [| apply ownedbut_close; assumption].
+    destruct (resettable (fy s0) (streams s0 x)) eqn:Hr; cbn [negb]; [| apply ownedbut_close; assumption].
     set (v := recycled_for_reuse (streams s0 x)).
     assert (B1 : Base (set_stream x v s0)).
     { apply base_set_stream; [apply recycled_sst | unfold v; destruct (recycled_sst (streams s0 x)) as [-> _]; tauto | split; assumption]. }
@@ -1061,7 +1126,7 @@ Proof.
   destruct G as [Gl Gt]. apply IH; [apply step_base; exact B | apply step_leak; assumption | exact Gt].
 Qed.
 
-Lemma init_leak f c : LeakInv (init f c).
+Lemma init_leak f g c : LeakInv (init f g c).
 Proof. split; [intros k x _ H; cbn in H; contradiction | intros _; apply init_poolP]. Qed.
 
 Lemma guarded_fx h : forall s, fx s = true -> guarded leak_guard s h.
@@ -1093,7 +1158,7 @@ Proof.
   - intros c x H. apply held_not_pooled; [exact R |]. apply heldx_holder. exists c. exact H.
 Qed.
 
-Theorem ring_thm f c h : 0 <= c -> ring_ok (run (init f c) h).
+Theorem ring_thm f g c h : 0 <= c -> ring_ok (run (init f g c) h).
 Proof. intro Hc. apply base_ring_ok, run_base, init_base, Hc. Qed.
 
 Definition table_ok (s : st) : Prop :=
@@ -1101,24 +1166,26 @@ Definition table_ok (s : st) : Prop :=
             forall x, In x (table (sessions s k)) <->
                       ((x < nstreams s)%nat /\ ssess (streams s x) = k /\ sst (streams s x) <> Closed).
 
-Theorem table_thm f c h : 0 <= c -> table_ok (run (init f c) h).
+Theorem table_thm f g c h : 0 <= c -> table_ok (run (init f g c) h).
 Proof.
-  intro Hc. destruct (run_base (init f c) h (init_base f c Hc)) as [_ T].
+  intro Hc. destruct (run_base (init f g c) h (init_base f g c Hc)) as [_ T].
   intro k. split; [apply (t_tnd _ T) | intro x; apply (t_tab _ T)].
 Qed.
+
+Lemma guarded_true h : forall s, guarded (fun _ _ => True) s h.
+Proof. induction h as [|l t IH]; intro s; cbn [guarded]; auto. Qed.
 
 Definition got_live (s' : st) (cl x : nat) : Prop :=
   sst (streams s' x) = Opened /\ shut (sessions s' (ssess (streams s' x))) = false /\
   infb (streams s' x) = false /\ holder s' cl x /\ (forall c2, holder s' c2 x -> c2 = cl) /\ ~ pooled s' x.
 
-Theorem clean_live_thm f c h cl s' x :
-  0 <= c -> step (run (init f c) h) (Get cl) = (s', RGot x) -> got_live s' cl x.
+Theorem clean_live_thm f g c h cl s' x :
+  0 <= c -> step (run (init f g c) h) (Get cl) = (s', RGot x) -> got_live s' cl x.
 Proof.
-  intros Hc E. set (s := run (init f c) h) in *.
+  intros Hc E. set (s := run (init f g c) h) in *.
   assert (B : Base s) by (apply run_base, init_base, Hc).
   assert (H : PoolP (fun v => infb v = false) s).
-  { apply (run_poolP _ (fun _ _ => True)); [intros v Hv; exact Hv | intros; apply nofb_guardP | apply init_base, Hc | apply init_poolP |].
-    clear. generalize (init f c). induction h as [|l t IH]; intro s0; cbn [guarded]; auto. }
+  { apply (run_poolP _ (fun _ _ => True)); [intros v Hv; exact Hv | intros; apply nofb_guardP | apply init_base, Hc | apply init_poolP | apply guarded_true]. }
   cbn [step] in E.
   destruct (do_get_spec (fun v => infb v = false) cl s s' x (fun v Hv => Hv) B H E) as (P1 & P2 & P3 & P4).
   assert (B' : Base s') by (change s' with (fst (s', RGot x)); rewrite <- E; apply do_get_base; exact B).
@@ -1135,16 +1202,40 @@ Proof.
   - apply (U3 cl x Hh).
 Qed.
 
-Theorem partial_clean_thm f c h cl s' x :
-  0 <= c -> guarded clean_guard (init f c) h ->
-  step (run (init f c) h) (Get cl) = (s', RGot x) -> clean_stream (streams s' x).
+(* part 1 of cleanliness under its guard, and unconditionally once reset() rejects unflushed bytes *)
+Theorem clean_bytes_thm f g c h cl s' x :
+  0 <= c -> guarded bytes_guard (init f g c) h ->
+  step (run (init f g c) h) (Get cl) = (s', RGot x) -> clean_bytes (streams s' x).
 Proof.
-  intros Hc G E. set (s := run (init f c) h) in *.
+  intros Hc G E. set (s := run (init f g c) h) in *.
   assert (B : Base s) by (apply run_base, init_base, Hc).
-  assert (H : PoolP clean_stream s).
-  { apply (run_poolP _ clean_guard); [apply clean_closed | apply clean_guardP | apply init_base, Hc | apply init_poolP | exact G]. }
-  cbn [step] in E. destruct (do_get_spec _ cl s s' x clean_closed B H E) as ([P1|P1] & _); [exact P1 |].
-  rewrite P1. unfold clean_stream. cbn. auto.
+  assert (H : PoolP clean_bytes s).
+  { apply (run_poolP _ bytes_guard); [apply bytes_closed | apply bytes_guardP | apply init_base, Hc | apply init_poolP | exact G]. }
+  cbn [step] in E. destruct (do_get_spec _ cl s s' x bytes_closed B H E) as ([P1|P1] & _); [exact P1 |].
+  rewrite P1. unfold clean_bytes. cbn. auto.
+Qed.
+
+Lemma guarded_fy h : forall s, fy s = true -> guarded bytes_guard s h.
+Proof.
+  induction h as [|l t IH]; intros s F; cbn [guarded]; [exact I |].
+  split; [destruct l; cbn [bytes_guard]; auto | apply IH; rewrite step_fy; exact F].
+Qed.
+
+Theorem clean_bytes_current_thm f c h cl s' x :
+  0 <= c -> step (run (init f true c) h) (Get cl) = (s', RGot x) -> clean_bytes (streams s' x).
+Proof. intros Hc E. eapply clean_bytes_thm; [exact Hc | apply guarded_fy; reflexivity | exact E]. Qed.
+
+(* part 2 under its guard *)
+Theorem partial_pend_thm f g c h cl s' x :
+  0 <= c -> guarded pend_guard (init f g c) h ->
+  step (run (init f g c) h) (Get cl) = (s', RGot x) -> pend (streams s' x) = [].
+Proof.
+  intros Hc G E. set (s := run (init f g c) h) in *.
+  assert (B : Base s) by (apply run_base, init_base, Hc).
+  assert (H : PoolP clean_pend s).
+  { apply (run_poolP _ pend_guard); [apply pend_closed | apply pend_guardP | apply init_base, Hc | apply init_poolP | exact G]. }
+  cbn [step] in E. destruct (do_get_spec _ cl s s' x pend_closed B H E) as ([P1|P1] & _); [exact P1 |].
+  rewrite P1. reflexivity.
 Qed.
 
 Definition leak_free (s : st) : Prop :=
@@ -1162,50 +1253,56 @@ Proof.
     + apply (r_hfresh _ R). apply heldx_holder. exact H.
 Qed.
 
-Theorem partial_no_leak_thm f c h :
-  0 <= c -> guarded leak_guard (init f c) h -> leak_free (run (init f c) h).
+Theorem partial_no_leak_thm f g c h :
+  0 <= c -> guarded leak_guard (init f g c) h -> leak_free (run (init f g c) h).
 Proof.
   intros Hc G. apply leak_free_of; [apply run_base, init_base, Hc |].
-  apply (run_leak h (init f c)); [apply init_base, Hc | apply init_leak | exact G].
+  apply (run_leak h (init f g c)); [apply init_base, Hc | apply init_leak | exact G].
 Qed.
 
-Theorem fixed_no_leak_thm c h : 0 <= c -> leak_free (run (init true c) h).
+Theorem fixed_no_leak_thm g c h : 0 <= c -> leak_free (run (init true g c) h).
 Proof. intro Hc. apply partial_no_leak_thm; [exact Hc | apply guarded_fx; reflexivity]. Qed.
 
-(* ================= refutations of the full statements (witnesses by vm_compute) ================= *)
-Definition clean_full : Prop :=
-  forall f c h cl s' x, 0 <= c -> step (run (init f c) h) (Get cl) = (s', RGot x) -> clean_stream (streams s' x).
-
+(* ================= witnesses (vm_compute) ================= *)
 (* previous holder: request, response read completely, 5 more bytes written but never flushed, PutBack;
-   next holder: Get -> the 5 bytes sit in the RECEIVE buffer (swap of ReleaseReadAndReuse) *)
+   next holder: Get *)
 Definition witness_unflushed : list label :=
   [Get 0; Write 0 0 8 false; Flush 0 0; PeerData 0 16 false; Read 0 0 16; Write 0 0 5 false; Put 0 0]%nat.
 (* a response that arrives after PutBack is handed to the next holder *)
 Definition witness_late : list label := [Get 0; Write 0 0 8 false; Flush 0 0; Put 0 0; PeerData 0 16 false]%nat.
-(* the peer closes a pooled stream: the next Get drops it without Close, it stays in the table *)
+(* the peer closes a pooled stream *)
 Definition witness_leak : list label := [Get 0; Put 0 0; PeerClose 0; Get 0]%nat.
+
+(* the FULL cleanliness statement (all clauses, no hypothesis) is false of EVERY variant of the model,
+   the current code included: late data *)
+Definition clean_full : Prop :=
+  forall f g c h cl s' x, 0 <= c -> step (run (init f g c) h) (Get cl) = (s', RGot x) -> clean_stream (streams s' x).
 
 Lemma clean_refuted : ~ clean_full.
 Proof.
-  intro H. specialize (H false 2 witness_unflushed 1%nat).
-  destruct (step (run (init false 2) witness_unflushed) (Get 1)) as [s' r] eqn:E.
+  intro H. specialize (H true true 2 witness_late 1%nat).
+  destruct (step (run (init true true 2) witness_late) (Get 1)) as [s' r] eqn:E.
   assert (Er : r = RGot 0) by (change r with (snd (s', r)); rewrite <- E; vm_compute; reflexivity).
-  subst r. specialize (H s' 0%nat ltac:(lia) eq_refl). destruct H as (A & _).
-  assert (Ev : sumz (rbuf (streams s' 0)) = 5) by (change s' with (fst (s', RGot 0%nat)); rewrite <- E; vm_compute; reflexivity).
+  subst r. specialize (H s' 0%nat ltac:(lia) eq_refl). destruct H as (_ & A & _).
+  assert (Ev : pend (streams s' 0) = [(16, false)]) by (change s' with (fst (s', RGot 0%nat)); rewrite <- E; vm_compute; reflexivity).
   rewrite Ev in A. discriminate.
 Qed.
 
-Lemma late_data_witness :
-  let r := step (run (init false 2) witness_late) (Get 1) in
-  snd r = RGot 0 /\ pend (streams (fst r) 0) = [(16, false)].
-Proof. vm_compute. split; reflexivity. Qed.
+(* regression, OLD code (reset() blind to the send buffer): the unflushed bytes surface in the RECEIVE
+   buffer of the next holder; with the repair the stream is closed and a fresh one handed out *)
+Lemma unflushed_witness_old_and_new :
+  let old := step (run (init false false 2) witness_unflushed) (Get 1) in
+  let new := step (run (init true true 2) witness_unflushed) (Get 1) in
+  (snd old = RGot 0 /\ sumz (rbuf (streams (fst old) 0)) = 5) /\
+  (snd new = RGot 1 /\ sst (streams (fst new) 0) = Closed /\ table (sessions (fst new) 0) = [1%nat]).
+Proof. vm_compute. repeat split; reflexivity. Qed.
 
-Definition no_leak_full : Prop := forall c h, 0 <= c -> leak_free (run (init false c) h).
-
-Lemma no_leak_refuted : ~ no_leak_full.
+(* regression, OLD code (getOrOpenStream drops without Close): the stream closed by the peer while pooled
+   stays in the table, owned by nobody; with the repair it is closed *)
+Lemma leak_old_code : ~ (forall c h, 0 <= c -> leak_free (run (init false true c) h)).
 Proof.
   intro H. specialize (H 2 witness_leak ltac:(lia) 0%nat 0%nat).
-  set (s := run (init false 2) witness_leak) in *.
+  set (s := run (init false true 2) witness_leak) in *.
   assert (Hs : shut (sessions s 0) = false) by (vm_compute; reflexivity).
   assert (Hi : In 0%nat (table (sessions s 0))) by (vm_compute; auto).
   apply (H Hs) in Hi. destruct Hi as ([P|[c P]] & _).
@@ -1215,7 +1312,6 @@ Proof.
     rewrite Eh in P. destruct P as [P|[]]. inversion P.
 Qed.
 
-(* the same history on the repaired model does not leak: the discarded stream is closed *)
 Lemma leak_witness_fixed :
-  let s := run (init true 2) witness_leak in table (sessions s 0) = [1%nat] /\ held s = [(0, 1)]%nat.
+  let s := run (init true true 2) witness_leak in table (sessions s 0) = [1%nat] /\ held s = [(0, 1)]%nat.
 Proof. vm_compute. split; reflexivity. Qed.
